@@ -79,6 +79,17 @@ StepOKKF == [][PropAccepts(C, P, ev') \/ KF1(ev')]_vars \* C02 modulo the record
 StateInv == PropInv(C, P)
 NoLoop == ev.e = "read" => ev.res # "loop"
 
+\* reachability probes (self-test: each must be reported violated, i.e. the situation is reachable)
+NeverAux == ~(I.D.rs = "data" /\ I.D.maxRead # Canon(C))
+NeverFit == ~(I.D.rs = "data" /\ I.D.cfs # None /\ I.D.maxRead = Canon(C))
+NeverCarry1 == ~(I.D.rs = "data" /\ I.D.nread = 1 /\ I.D.offset = 0 /\ I.D.taken > 1)
+NeverPartialFrame == I.D.pend = <<>>
+NeverWritePartial == ~(ev.e = "write" /\ ev.res = "ok" /\ ev.acc < ev.req)
+NeverWritePending == ~(ev.e = "write" /\ ev.res = "pending")
+NeverTwoBuffered == ~(I.Wr.writing /\ I.Wr.wlen > MSG + HDR)
+NeverTamperErr == ~(ev.e = "read" /\ ev.res = "err" /\ ~P.closed)
+NeverQuiesce == ~P.q
+
 View == <<I, P, rp, npend, nw, wd>>
 Emit == PrintT(<<"B", ToJson([cfg |-> C, plan |-> I.plan, ops |-> hist'])>>)
 =============================================================================
